@@ -3300,6 +3300,23 @@ impl IceCandidate {
             None
         };
 
+        // Optional related address (RFC 5245 §15.1): "raddr <ip> rport <port>".
+        let mut rel_ip: Option<std::net::IpAddr> = None;
+        let mut rel_port: Option<u16> = None;
+        let mut i = 8;
+        while i + 1 < parts.len() {
+            match parts[i] {
+                "raddr" => rel_ip = parts[i + 1].parse().ok(),
+                "rport" => rel_port = parts[i + 1].parse().ok(),
+                _ => {}
+            }
+            i += 2;
+        }
+        let related_address = match (rel_ip, rel_port) {
+            (Some(ip), Some(port)) => Some(SocketAddr::new(ip, port)),
+            _ => None,
+        };
+
         Ok(Self {
             foundation,
             priority,
@@ -3307,7 +3324,7 @@ impl IceCandidate {
             typ,
             transport,
             tcp_type,
-            related_address: None,
+            related_address,
             component,
         })
     }
